@@ -7,6 +7,7 @@ package lib
 // only ever uses time.Since(registrationTime)).
 
 import (
+	"encoding/binary"
 	"sync/atomic"
 	"sync"
 	"context"
@@ -37,6 +38,12 @@ type c08Op struct {
 	Busy   bool   `json:"busy,omitempty"`   // connect: another connection handler holds the registry's read lock at the moment of activation (the activation has to wait for it, not be skipped)
 	Dial   string `json:"dial,omitempty"`   // ingest of a connecting-transport registration (TT 3): outcome of the station's dial to the client: "fail" | "timeout" | "ok" (connected; the session ends at once)
 	Mid    string `json:"mid,omitempty"`    // sweep: an operation of this kind (connect | ingest, with this op's Secret/TT/V6/Ovr/Tunnel) arrives between the sweep's collection and removal phases
+	// ingest: the station refuses the registration. Ovr == c08BlockedOvr is a phantom on the station's
+	// phantom blocklist: refused before it is tracked when it came over the API, after it was tracked
+	// when it came from the detector (Src "detector").
+	Refuse string `json:"refuse,omitempty"` // "" | "covert" (the covert address is c08BadCoverts[Covert]) | "live" (the phantom answers the liveness scan; IPv4 phantoms only, IPv6 phantoms are not scanned)
+	Covert int    `json:"covert,omitempty"`
+	Src    string `json:"src,omitempty"` // "" = API registrar | "detector"
 }
 
 func (o c08Op) String() string {
@@ -51,6 +58,9 @@ func (o c08Op) String() string {
 	}
 	if o.Tunnel || o.Busy {
 		return fmt.Sprintf("%s(s%d,t%d,v6=%v,o%d,relay=%v,lock-read-held=%v)", o.Kind, o.Secret, o.TT, o.V6, o.Ovr, o.Tunnel, o.Busy)
+	}
+	if o.Refuse != "" || o.Src != "" || o.Ovr == c08BlockedOvr {
+		return c08RefString(o)
 	}
 	if o.TT == 3 {
 		return fmt.Sprintf("%s(s%d,dtls,v6=%v,o%d,station's dial: %s)", o.Kind, o.Secret, o.V6, o.Ovr, o.Dial)
@@ -86,10 +96,11 @@ func c08Secret(i int) []byte {
 }
 
 type c08Entry struct {
-	age   time.Duration
-	used  bool
-	valid bool
-	desc  string
+	age     time.Duration
+	used    bool
+	valid   bool
+	refused bool // tracked by the ingest pipeline, then refused during validation
+	desc    string
 }
 
 const (
@@ -98,10 +109,21 @@ const (
 )
 
 func c08MakeReg(e *vEnv, o c08Op) (*DecoyRegistration, error) {
-	w := vWrapper(c08Secret(o.Secret), c08TT[o.TT], 0, "192.0.2.10:443", !o.V6, o.V6, 4, 957, pb.RegistrationSource_API, net.ParseIP("198.51.100.7").To4())
+	src := pb.RegistrationSource_API
+	if o.Src == "detector" {
+		src = pb.RegistrationSource_Detector
+	}
+	w := vWrapper(c08Secret(o.Secret), c08TT[o.TT], 0, "192.0.2.10:443", !o.V6, o.V6, 4, 957, src, net.ParseIP("198.51.100.7").To4())
 	if o.Ovr > 0 {
 		rr := &pb.RegistrationResponse{}
-		if o.V6 {
+		if o.Ovr == c08BlockedOvr {
+			// the blocklisted phantom of each family: outside the subnets phantoms are derived from
+			if o.V6 {
+				rr.Ipv6Addr = net.ParseIP(c08BlockedV6)
+			} else {
+				rr.Ipv4Addr = proto.Uint32(binary.BigEndian.Uint32(net.ParseIP(c08BlockedV4).To4()))
+			}
+		} else if o.V6 {
 			rr.Ipv6Addr = net.ParseIP(fmt.Sprintf("2001:48a8:687f:1::%x", o.Ovr))
 		} else {
 			rr.Ipv4Addr = proto.Uint32(0xC07ABE00 | uint32(o.Ovr)) // 192.122.190.k
@@ -111,6 +133,9 @@ func c08MakeReg(e *vEnv, o c08Op) (*DecoyRegistration, error) {
 	if o.TT == 3 {
 		w.RegistrationPayload.TransportParams = nil
 		w.RegistrationPayload.CovertAddress = proto.String("127.0.0.1:1") // refuses at once
+	}
+	if o.Kind == "ingest" && o.Refuse == "covert" {
+		w.RegistrationPayload.CovertAddress = proto.String(c08BadCoverts[o.Covert%len(c08BadCoverts)].addr)
 	}
 	return e.rm.NewRegistrationC2SWrapper(w, o.V6)
 }
@@ -179,9 +204,37 @@ func c08Run(e *vEnv, c c08Case) (key, msg string, stats map[string]bool) {
 			if o.TT == 3 {
 				c08cOutcomes.Script(reg.Keys.SharedSecret, o.Dial)
 			}
+			c08SetLive(e, o.Refuse == "live")
 			e.rm.ingestRegistration(reg)
+			c08SetLive(e, false)
+			if c08PhantomBlocked(reg.PhantomIp) && o.Src != "detector" {
+				// a blocklisted phantom, not from the detector: refused before anything is
+				// tracked (whatever is tracked under that key got there by other means and stays as it is)
+				stats["refused:never-tracked"] = true
+				return "", ""
+			}
+			// the registration was admitted to the registry: tracked from now on, whatever the
+			// validation that follows says about it
+			refuse := c08RefuseReason(o, reg)
 			if !exists {
-				model[k] = &c08Entry{desc: o.String(), valid: true}
+				model[k] = &c08Entry{desc: o.String(), valid: refuse == "", refused: refuse != ""}
+			} else if ent.refused {
+				stats["refused-then-duplicate"] = true
+			}
+			if refuse != "" && !exists {
+				stats["refused:"+refuse] = true
+			}
+			if tracked, _, _ := VerifRegState(e.rm, reg); !tracked {
+				what := "a duplicate of a tracked registration"
+				if !exists {
+					what = "a new registration"
+					if refuse != "" {
+						what = "a new registration the station refused during validation (" + refuse + ")"
+					}
+				}
+				return "expired-early", fmt.Sprintf("step %d %v: %s is not tracked right after it was ingested (age %v, lifetime of an unused registration %v)", step, o, what, model[k].age, c08Unused)
+			}
+			if !exists && refuse == "" {
 				if o.TT == 3 {
 					// the station dials the client now; wait for the outcome
 					select {
@@ -200,7 +253,7 @@ func c08Run(e *vEnv, c c08Case) (key, msg string, stats map[string]bool) {
 					model[k].used = o.Dial == "ok"
 					stats["connecting:"+o.Dial] = true
 				}
-			} else {
+			} else if exists {
 				stats["duplicate"] = true
 			}
 		}
@@ -320,7 +373,7 @@ func c08Run(e *vEnv, c c08Case) (key, msg string, stats map[string]bool) {
 			slack := time.Since(start) + 50*time.Millisecond
 			// entries whose expiry depends on the real time elapsed during this test are ambiguous
 			amb := map[string]bool{}
-			removed, kept := 0, 0
+			removed, kept, removedRefused := 0, 0, 0
 			for k, ent := range model {
 				lim := c08Unused
 				if ent.used {
@@ -349,11 +402,18 @@ func c08Run(e *vEnv, c c08Case) (key, msg string, stats map[string]bool) {
 					}
 					delete(model, k)
 					removed++
+					if ent.refused {
+						stats["refused-expires"] = true
+						removedRefused++
+					}
 				} else {
 					if !still {
 						return "expired-early", fmt.Sprintf("step %d sweep: %s (age %v, used=%v) was removed before its lifetime ended", step, ent.desc, ent.age, ent.used), stats
 					}
 					kept++
+					if ent.refused {
+						stats["refused-kept-while-young"] = true
+					}
 				}
 			}
 			if removed > 0 && kept > 0 {
@@ -361,6 +421,9 @@ func c08Run(e *vEnv, c c08Case) (key, msg string, stats map[string]bool) {
 			}
 			if removed > 0 {
 				stats["sweep-removes"] = true
+			}
+			if removedRefused >= 20 {
+				stats["sweep-removes-20+-refused"] = true
 			}
 		}
 		// invariants after every step
@@ -513,6 +576,9 @@ func c08Gen(rt *rapid.T) c08Case {
 				o.TT = rapid.IntRange(0, 2).Draw(rt, "tt")
 				o.V6 = rapid.Bool().Draw(rt, "v6")
 				o.Tunnel = rapid.Bool().Draw(rt, "tunnel")
+				if o.Mid == "ingest" {
+					c08DrawRefusal(rt, &o)
+				}
 			}
 		default:
 			if k == "connect" {
@@ -531,7 +597,10 @@ func c08Gen(rt *rapid.T) c08Case {
 			}
 			o.V6 = rapid.Bool().Draw(rt, "v6")
 			if rapid.IntRange(0, 3).Draw(rt, "ovrp") == 0 {
-				o.Ovr = rapid.IntRange(1, 2).Draw(rt, "ovr")
+				o.Ovr = rapid.IntRange(1, 3).Draw(rt, "ovr") // #3 is a blocklisted phantom
+			}
+			if k == "ingest" {
+				c08DrawRefusal(rt, &o)
 			}
 		}
 		ops = append(ops, o)
@@ -544,10 +613,11 @@ func c08Gen(rt *rapid.T) c08Case {
 // 3 transports, both families, registrar-overridden phantoms that make different secrets share a
 // phantom).
 func TestVerif_C08_random(t *testing.T) {
-	rec := vh.NewRec("C08", "random", "rapid-generated histories of 1-120 operations (track, validate, ingest - incl. connecting-transport registrations whose dial to the client fails, times out or succeeds -, connect with or without the relay step, advance time, sweep, sweep during which a connect or ingest arrives between collection and removal) over 4 secrets x {min,prefix,obfs4} x {v4,v6} x {derived, overridden phantom}; non-trivial as in the exhaustive sub-check; distinct by history")
+	rec := vh.NewRec("C08", "random", "rapid-generated histories of 1-120 operations (track, validate, ingest - incl. connecting-transport registrations whose dial to the client fails, times out or succeeds, and registrations the station refuses after it has tracked them: malformed / blocklisted covert address, phantom that answers the liveness scan, blocklisted phantom from the detector; or before: blocklisted phantom over the API -, connect with or without the relay step, advance time, sweep, sweep during which a connect or ingest arrives between collection and removal) over 4 secrets x {min,prefix,obfs4} x {v4,v6} x {derived, overridden phantom}; non-trivial as in the exhaustive sub-check; distinct by history")
 	defer rec.Flush()
-	rec.Require("sweep-removes-some-keeps-some", "one-secret-several-transports", "connect", "connect-with-tunnel", "operation-during-sweep", "connecting:fail", "connecting:ok", "connect-while-lock-read-held")
-	e := vNewEnv(t, nil, "")
+	rec.Require("sweep-removes-some-keeps-some", "one-secret-several-transports", "connect", "connect-with-tunnel", "operation-during-sweep", "connecting:fail", "connecting:ok", "connect-while-lock-read-held",
+		"refused:covert-malformed", "refused:covert-blocklisted", "refused:phantom-live", "refused:phantom-blocklisted-detector", "refused:never-tracked", "refused-then-duplicate", "refused-expires", "refused-kept-while-young")
+	e := vNewEnv(t, c08Conf(), "")
 	c08Connecting(e)
 	if p := vh.ReplayFile(); p != "" {
 		var c c08Case
